@@ -19,7 +19,7 @@
     pairwise distinct slots — in particular ([C13_reachable]) every state reachable by a
     history of public mutating calls. *)
 From Coq Require Import List NArith Bool.
-From PT Require Import Lookup Lookup2 ViewsThm Slots MutTrav MutTravExtra UnionThm InterDiffThm.
+From PT Require Import Lookup Lookup2 ViewsThm Slots MutTrav MutTravExtra UnionThm InterDiffThm Arena Arena3 ArenaProps ArenaWrite.
 From PT.Properties Require Import Common.
 Import ListNotations.
 
@@ -390,6 +390,72 @@ Theorem C13_get_mut_absent (m : pmap pfx V) (q : pfx) (g : V -> V) :
   t_get w fl V (root m) q = None -> t_update_value w fl V m q g = m.
 Proof. exact (update_value_absent pfx V _ _ _ _ m q g). Qed.
 
+(* ---------------------------------------------------------------------------------------- *)
+(** * The same statements about the ARENA-level transcription (ArenaWrite.v).  At the arena level a
+      reference handed out by a mutable traversal is a slot index into the table, and a write through
+      it is [table[i].value = Some x] on a slot that holds a value ([a_write]).  [am] is any arena
+      reachable from the empty arena by a history over the whole mutator alphabet. *)
+
+(** the two copies of the traversal loop ([Iter::next] / [IterMut::next]) are the same function up to
+    the projection of the slot — for EVERY table, fuel and stack (no hypothesis at all) *)
+Theorem C13_arena_iter_mirrors fuel (tb : list (Arena.anode pfx V)) st :
+  Arena.a_iter pfx V fuel tb st
+  = Arena.rbind (a_iter_mut pfx V fuel tb st) (fun items => Arena.Ok (map (drop3 pfx V) items)).
+Proof. exact (iter_mirrors pfx V fuel tb st). Qed.
+
+(** [iter_mut] returns [Ok], [iter] is its projection, and no two references alias *)
+Theorem C13_arena_iter_mut (am : Arena.amap pfx V) : areach pfx V (peq w) (contains w fl) (is_bit_set w) plen (lcp w fl) pzero (okp w) am ->
+  exists items, a_items pfx V am = Arena.Ok items /\
+                Arena.a_entries pfx V am = Arena.Ok (map (drop3 pfx V) items) /\ NoDup (map slot items).
+Proof.
+  intros H. apply (arena_C13_iter_mut pfx V (peq w) (contains w fl) (is_bit_set w) plen (lcp w fl) pzero (kbits w) (okp w)).
+  exact (areach_good pfx V _ _ _ _ _ _ _ _ _ LAWS am H).
+Qed.
+
+(** a write changes nothing but values: prefixes, links, which slots hold a value, the free list, the
+    counter and the table length are literally the same; the written arena again represents a
+    well-formed map with exact slot accounting (so every arena theorem applies to it again) *)
+Theorem C13_arena_write_frame (am : Arena.amap pfx V) ws : areach pfx V (peq w) (contains w fl) (is_bit_set w) plen (lcp w fl) pzero (okp w) am ->
+  map (nskel pfx V) (Arena.tbl (a_write pfx V am ws)) = map (nskel pfx V) (Arena.tbl am) /\
+  Arena.afree (a_write pfx V am ws) = Arena.afree am /\ Arena.acount (a_write pfx V am ws) = Arena.acount am /\
+  agood pfx V (kbits w) (okp w) (a_write pfx V am ws).
+Proof.
+  intros H. destruct (a_write_frame pfx V am ws) as (A & B & C & _). split; [exact A|]. split; [exact B|]. split; [exact C|].
+  apply a_write_good. exact (areach_good pfx V _ _ _ _ _ _ _ _ _ LAWS am H).
+Qed.
+
+(** writing [g slot old] through ANY selection [sel] of the references handed out by [iter_mut]:
+    the traversal of the written arena yields the same slots and prefixes in the same order, the
+    value [g i x] exactly at the selected slots and the old value everywhere else *)
+Theorem C13_arena_write_exact (am : Arena.amap pfx V) items sel (g : N -> V -> V) : areach pfx V (peq w) (contains w fl) (is_bit_set w) plen (lcp w fl) pzero (okp w) am ->
+  a_items pfx V am = Arena.Ok items -> incl sel items ->
+  a_items pfx V (a_write pfx V am (MutTrav.writes_of pfx V g sel))
+  = Arena.Ok (map (fun '(i, p, x) => (i, p, if MutTrav.is_slot_of pfx V sel i then g i x else x)) items).
+Proof.
+  intros H. apply (arena_C13_write_exact pfx V (peq w) (contains w fl) (is_bit_set w) plen (lcp w fl) pzero (kbits w) (okp w)).
+  exact (areach_good pfx V _ _ _ _ _ _ _ _ _ LAWS am H).
+Qed.
+
+Theorem C13_arena_write_all (am : Arena.amap pfx V) items (g : N -> V -> V) : areach pfx V (peq w) (contains w fl) (is_bit_set w) plen (lcp w fl) pzero (okp w) am ->
+  a_items pfx V am = Arena.Ok items ->
+  a_items pfx V (a_write pfx V am (MutTrav.writes_of pfx V g items)) = Arena.Ok (map (fun '(i, p, x) => (i, p, g i x)) items) /\
+  Arena.a_entries pfx V (a_write pfx V am (MutTrav.writes_of pfx V g items)) = Arena.Ok (map (fun '(i, p, x) => (p, g i x)) items).
+Proof.
+  intros H. apply (arena_C13_write_all pfx V (peq w) (contains w fl) (is_bit_set w) plen (lcp w fl) pzero (kbits w) (okp w)).
+  exact (areach_good pfx V _ _ _ _ _ _ _ _ _ LAWS am H).
+Qed.
+
+(** [get_lpm_mut] hands out one of the references of [iter_mut]; prefix and value are [get_lpm]'s *)
+Theorem C13_arena_get_lpm_mut (am : Arena.amap pfx V) items q : areach pfx V (peq w) (contains w fl) (is_bit_set w) plen (lcp w fl) pzero (okp w) am ->
+  a_items pfx V am = Arena.Ok items ->
+  exists o, Arena3.a_get_lpm_mut pfx V (peq w) (contains w fl) (is_bit_set w) plen am q = Arena.Ok o /\
+            Arena.a_get_lpm pfx V (peq w) (contains w fl) (is_bit_set w) plen am q = Arena.Ok (option_map (drop3 pfx V) o) /\
+            match o with Some e => In e items | None => True end.
+Proof.
+  intros H. apply (arena_C13_get_lpm_mut pfx V (peq w) (contains w fl) (is_bit_set w) plen (lcp w fl) pzero (kbits w) (okp w)).
+  exact (areach_good pfx V _ _ _ _ _ _ _ _ _ LAWS am H).
+Qed.
+
 End C13.
 
 (** non-vacuity (w = 8): the map {00/2 -> 1, 40/2 -> 2, 80/1 -> 3, c0/2 -> 4}; inserting 40/2
@@ -456,3 +522,9 @@ Print Assumptions C13_write_visible_get_lpm.
 Print Assumptions C13_write_visible_by_key.
 Print Assumptions C13_get_mut_write.
 Print Assumptions C13_get_mut_absent.
+Print Assumptions C13_arena_iter_mirrors.
+Print Assumptions C13_arena_iter_mut.
+Print Assumptions C13_arena_write_frame.
+Print Assumptions C13_arena_write_exact.
+Print Assumptions C13_arena_write_all.
+Print Assumptions C13_arena_get_lpm_mut.
